@@ -233,6 +233,7 @@ pub fn gen_doc(opts: &SymOpts) -> SymDoc {
     }
     let n = range("sym.records", 0, opts.max_records as u64) as u32;
     let mut addr: u64 = 0x1000;
+    let mut last_cfi: (u64, u64) = (0, 0);
     let mut enabled: Vec<u32> = Vec::new();
     for k in [Kinds::INFO, Kinds::FILE, Kinds::ORIGIN, Kinds::PUBLIC, Kinds::FUNC, Kinds::WIN, Kinds::CFI, Kinds::BLANK] {
         if kinds.has(k) {
@@ -299,7 +300,15 @@ pub fn gen_doc(opts: &SymOpts) -> SymDoc {
                         }
                     }
                 }
-                addr = addr.wrapping_add(size.max(1)) + range("sym.func.gap", 0, 0x40);
+                // next function: usually after a gap, sometimes adjacent, sharing exactly the last
+                // byte, overlapping, or a duplicate range
+                addr = match ch("sym.func.next", 8) {
+                    0 => addr.wrapping_add(size.max(1)),
+                    1 => addr.wrapping_add(size.max(1)).wrapping_sub(1),
+                    2 => addr.wrapping_add(size / 2),
+                    3 => addr,
+                    _ => addr.wrapping_add(size.max(1)) + range("sym.func.gap", 0, 0x40),
+                };
             }
             Kinds::WIN => {
                 let ty = *simkit::pick("sym.win.ty", &[b'4', b'0', b'4', b'0', b'1', b'3', b'f']);
@@ -339,9 +348,17 @@ pub fn gen_doc(opts: &SymOpts) -> SymDoc {
                 doc.lines.push(l);
             }
             Kinds::CFI => {
-                let a0 = range("sym.cfi.addr", 0x1000, 0x20000);
+                let a0 = match ch("sym.cfi.place", 5) {
+                    // relative to the previous STACK CFI INIT: share its last byte, adjacent, same start
+                    0 if last_cfi.1 > 0 => last_cfi.0 + last_cfi.1 - 1,
+                    1 if last_cfi.1 > 0 => last_cfi.0 + last_cfi.1,
+                    2 if last_cfi.1 > 0 => last_cfi.0,
+                    _ => range("sym.cfi.addr", 0x1000, 0x20000),
+                };
                 doc.record_heads.push(doc.lines.len());
-                let mut l = join(&[b"STACK CFI INIT", &if ext && chance("sym.cfi.addr.extreme", 1, 15) { num_u64(true, 0) } else { hex(a0) }, &num_u32(ext, 0x200), &cfi_rules(ext)]);
+                let csize = range("sym.cfi.size", 0, 0x200);
+                last_cfi = (a0, csize);
+                let mut l = join(&[b"STACK CFI INIT", &if ext && chance("sym.cfi.addr.extreme", 1, 15) { num_u64(true, 0) } else { hex(a0) }, &if ext && chance("sym.cfi.size.extreme", 1, 15) { num_u32(true, 0x200) } else { hex(csize) }, &cfi_rules(ext)]);
                 if long {
                     l.extend_from_slice(b" $junk: ");
                     l.extend_from_slice(&nm);
